@@ -18,8 +18,9 @@ def batch(prop, cases, workers, hashseed, seed):
     env = dict(os.environ, PYTHONHASHSEED=str(hashseed),
                VERIF_DUMP_DIGESTS=os.path.join(d, 'dig'),
                VERIF_SHRINK_S='0', VERIF_NO_EVIDENCE='1')
-    p = subprocess.run([os.path.join(VERIF, 'check'), prop, '--cases',
-                        str(cases), '--workers', str(workers), '--seed',
+    p = subprocess.run([os.path.join(VERIF, 'check'), prop] +
+                       (['--cases', str(cases)] if cases else []) +
+                       ['--workers', str(workers), '--seed',
                         str(seed)], env=env, stdout=subprocess.PIPE,
                        stderr=subprocess.STDOUT, text=True)
     rows = {}
@@ -45,8 +46,14 @@ def main():
         ref = None
         for (workers, hs, seed) in [(16, 0, 7), (16, 0, 7), (4, 12345, 7),
                                     (1, 999, 7), (16, 31337, 7)]:
-            n = cases if workers > 1 else max(100, cases // 6)
+            # (the 16-worker runs use the whole quick budget: a dependence
+            # on the hash seed that one case in ten thousand has - a set
+            # rendered as text - does not show in 1500)
+            n = None if workers == 16 else \
+                cases if workers > 1 else max(100, cases // 6)
             rows, rc, out = batch(prop, n, workers, hs, seed)
+            if n is None:
+                n = len(rows)
             if rc == 3 or len(rows) != n:
                 print('%s: HARNESS problem rc=%d rows=%d\n%s'
                       % (prop, rc, len(rows), out[-2000:]))
@@ -55,7 +62,7 @@ def main():
             if ref is None:
                 ref = rows
                 continue
-            diff = [g for g in rows if rows[g] != ref[g]]
+            diff = [g for g in rows if g in ref and rows[g] != ref[g]]
             print('%s workers=%d PYTHONHASHSEED=%d cases=%d differing=%d %s'
                   % (prop, workers, hs, n, len(diff), diff[:8]))
             bad += len(diff)
